@@ -694,6 +694,11 @@ func (s *DB) getHistoricRootsAndNodes(
 	candidateRoots := dependentRoots{}
 	parentToChildren := getDependents(rootCacheByName)
 	for parent, children := range parentToChildren {
+		if _, own := s.mergedRoots[parent]; own {
+			// this handle is based on it: its next commit refers to it
+			// and writes its copy under root/merged/ again
+			continue
+		}
 		tooNew := false
 		for _, childRoot := range children {
 			if childRoot.Created == nil || !childRoot.Created.Before(olderThan) {
